@@ -13,12 +13,25 @@ Sub-checks
             order, one input line per output line; (3) collapse: a result without a non-blank
             character is [] (list entry); after ContentProvider.write under HostContext / clean_file
             no file without a non-blank character exists at the destination, and a content error
-            leaves no file; plus in-process determinism with a fresh cleaner.
+            leaves no file; plus in-process determinism with a fresh cleaner.  Allow-lists are derived from
+            the content (every tagged line / one tag / a slice of a line / a word / nothing) with small
+            per-key budgets, so that they run out at the bottom, in the middle, exactly at the top or never.
+  overlap   (hypothesis, in-process)  2-3 cleanings - each with its own content, allow-list, no_obfuscate and
+            no_redact - go through ONE Cleaner object (what a collection does: one cleaner per run, specs
+            written from a thread pool when obfuscation is off).  Every cleaning runs in its own real thread;
+            the harness owns the schedule: a baton lets exactly one thread run, from one yield point (a line is
+            read from the content; optionally: a parser is applied to a line) to the next, in the generated
+            order - serial histories, nested and interleaved ones.  Oracle: each cleaning's output is the
+            output of a fresh cleaner for ITS content and configuration (obfuscation off: equal; obfuscation
+            on - serial histories only, substitution tables are shared by design - the same input lines
+            survive).
 Blank = the empty string (whitespace-only lines are not generated: whether they are "blank" is not
 stated)."""
 import os
 import shutil
+import sys
 import tempfile
+import threading
 
 from hypothesis import HealthCheck, Phase, given, settings
 from hypothesis import seed as hyp_seed
@@ -26,7 +39,7 @@ from hypothesis import strategies as st
 
 from vp import hashseed
 from vp import textgen as tg
-from vp.core import Sub, Reg, Violation, jdump
+from vp.core import HarnessError, Sub, Reg, Violation, jdump
 from vp.props import c08
 
 PROPERTY = "C10"
@@ -35,7 +48,13 @@ RULE = ("cases built so that obfuscators compete for the same text: keywords tha
         "obfuscators' own output vocabulary (host, example, keyword, 10.230), secrets that are IPs, host names, "
         "MACs or keywords, password keys glued to the host name, IPv6 and IPv4-mapped forms, usually all switches "
         "on; plus blank lines, plain exclusion patterns (often matching every tagged line), allow-lists and the "
-        "four entry points. hashseed: every case is run under |K| hash seeds in child interpreters. "
+        "four entry points; allow-lists derived from the content (key = every tagged line / one tag / a slice / a "
+        "word / nothing, budgets 1-3 or 10000: used up at the bottom, in the middle, exactly at the top, never). "
+        "overlap: 2-3 cleanings with their own content, allow-list, no_obfuscate, no_redact through one Cleaner "
+        "object, each in a real thread, interleaved exactly as a generated schedule says (yield point = a line "
+        "is read / a parser is applied); non-trivial (overlap): the cleanings differ in what is handed over per "
+        "call, some line is dropped and - obfuscation off - they really overlapped. "
+        "hashseed: every case is run under |K| hash seeds in child interpreters. "
         "Non-trivial (hashseed): applying the enabled obfuscators one at a time in documented order and in "
         "reverse order (public API, no_obfuscate) gives different results, i.e. application order matters for "
         "this case - measured, not assumed; (order): >= 2 output lines with >= 1 line dropped, or a collapse to "
@@ -45,6 +64,15 @@ ASSUMPTIONS = [
     "the child asserts both",
     "a line is blank iff it is the empty string",
     "plain exclusion patterns / tags as in C08; SimpleNamespace stands in for InsightsConfig",
+    "overlap: one Cleaner serves every cleaning of a collection (insights.collect: broker['cleaner']; specs are "
+    "written from the thread pool of serde.marshal / the parallel run strategy when obfuscation is off), so a "
+    "cleaning's output must be what a fresh cleaner gives for its content and configuration whatever other "
+    "cleanings go through the object before or meanwhile.  With obfuscation off the cleaner keeps no "
+    "substitution table (keyword numbers are fixed by the configuration), so the outputs are compared as they "
+    "are; with obfuscation on the tables are shared by design and callers never overlap: serial histories only, "
+    "and only which input lines survive is compared (redaction and filtering see the original text)",
+    "overlap: a list subclass as content (the cleaner tests isinstance(lines, list)) whose item reads block until "
+    "the scheduler's baton arrives; instance-level parse_line wrappers on the harness's own cleaner object",
 ]
 EXCLUDED = [
     "whitespace-only lines and, for clean_file, empty lines (a file of bare newlines is kept by clean_file; "
@@ -180,6 +208,11 @@ def _smaller(case):
             c = dict(case, lines=lines[:i] + lines[i + 1:])
             cands.append(c)
     for i, ln in enumerate(lines):
+        if case.get("width"):
+            # width-preserving mode is only defined on netstat-shaped lines (address, port, padding ...): a
+            # line with parts taken out is outside the generated domain (the unchanged code raises on a line
+            # that ends in an address), so only whole lines are dropped
+            break
         for j in range(len(ln["parts"])):
             nl = dict(ln, parts=ln["parts"][:j] + ln["parts"][j + 1:])
             cands.append(dict(case, lines=lines[:i] + [nl] + lines[i + 1:]))
@@ -323,6 +356,15 @@ def check_order(case):
             if out or (leftover is not None and leftover[0]):
                 raise Violation("every non-blank line had to be redacted, yet the spec was not dropped (%s)" % entry,
                                 output=out, **details)
+    if case.get("allowlist") is not None:
+        labels.add("allowlist")
+        at = _allow_used_up_at(case, lines)
+        if at is not None:
+            labels.add("allowlist-used-up")
+            if at > 0:
+                labels.add("allowlist-used-up-below-the-top")
+                if any(l == "" for l in lines[:at]):
+                    labels.add("allowlist-used-up-below-a-blank-line")
     n_in = len(lines)
     dropped = n_in - len(out)
     if dropped:
@@ -335,6 +377,27 @@ def check_order(case):
         labels.add("blank-line-kept")
     nt = (len(out) >= 2 and dropped > 0) or (not out and any(l == "" for l in lines))
     return {"nontrivial": nt, "labels": sorted(labels), "key": _key(case)}
+
+
+def _allow_used_up_at(case, lines):
+    """coverage label only (never part of the oracle): index of the line at which the last budget of the
+    allow-list is spent when the content is walked bottom-up, None when something is left at the top"""
+    left = dict(case["allowlist"])
+    pat = case.get("patterns")
+    pats = pat["items"] if pat and pat.get("mode", "plain") == "plain" and not case.get("no_redact") else []
+    for idx in range(len(lines) - 1, -1, -1):
+        if not left:
+            return idx + 1
+        l = lines[idx]
+        if not l or any(p in l for p in pats):
+            continue
+        for k in list(left):
+            if k in l:
+                left[k] -= 1
+                if left[k] == 0:
+                    del left[k]
+                break
+    return 0 if not left else None
 
 
 def _run_on_disk(case, lines):
@@ -381,6 +444,246 @@ def _run_on_disk(case, lines):
         return out, (exists, text, raised)
     finally:
         shutil.rmtree(d, ignore_errors=True)
+
+
+# ---- overlap: several cleanings through one Cleaner, schedule owned by the harness ---------------------
+
+class _Baton(object):
+    """Real threads, one running at a time.  A worker runs from one yield point (`pause`) to the next only when
+    the scheduler hands it the baton (`advance`); the scheduler waits until the worker pauses again or ends.  So
+    the interleaving is exactly the generated one and a case replays identically.  Every wait has a time-out:
+    then all workers are released to run to their end and the case is a harness error, never a verdict."""
+
+    def __init__(self, n, timeout=60.0):
+        self.cv = threading.Condition()
+        self.turn = -1                      # -1 = the scheduler
+        self.started = [False] * n
+        self.done = [False] * n
+        self.free = False
+        self.timeout = timeout
+        self.local = threading.local()
+
+    def _wait(self):
+        if not self.cv.wait(self.timeout):
+            self.free = True
+            self.cv.notify_all()
+
+    def enter(self, i):                     # worker i, before its first instruction
+        self.local.idx = i
+        with self.cv:
+            while self.turn != i and not self.free:
+                self._wait()
+
+    def pause(self, i=None):                # worker, at a yield point
+        if i is None:
+            i = getattr(self.local, "idx", None)
+            if i is None:                   # not one of the scheduled workers
+                return
+        with self.cv:
+            if self.free:
+                return
+            self.turn = -1
+            self.cv.notify_all()
+            while self.turn != i and not self.free:
+                self._wait()
+
+    def leave(self, i):                     # worker i, after its last instruction
+        with self.cv:
+            self.done[i] = True
+            self.turn = -1
+            self.cv.notify_all()
+
+    def advance(self, i):
+        """scheduler: worker i runs up to its next yield point; False when it has ended already"""
+        with self.cv:
+            if self.done[i] or self.free:
+                return False
+            self.started[i] = True
+            self.turn = i
+            self.cv.notify_all()
+            while self.turn == i and not self.free:
+                self._wait()
+            return True
+
+    def release_all(self):
+        with self.cv:
+            self.free = True
+            self.cv.notify_all()
+
+
+def run_scheduled(baton, bodies, schedule):
+    """bodies: callables f(i) -> result, each run in its own thread; schedule: [[worker, steps], ...] (worker
+    modulo len(bodies); one step = up to the worker's next yield point, a negative number = up to its end),
+    afterwards the unfinished workers run to their end one after the other.  -> (results, exc_infos, overlapped)"""
+    n = len(bodies)
+    timeout = baton.timeout
+    results, errors = [None] * n, [None] * n
+
+    def work(i):
+        baton.enter(i)
+        try:
+            results[i] = bodies[i](i)
+        except BaseException:  # noqa - handed to the caller's thread
+            errors[i] = sys.exc_info()
+        finally:
+            baton.leave(i)
+
+    threads = [threading.Thread(target=work, args=(i,), name="vp-c10-overlap-%d" % i) for i in range(n)]
+    for t in threads:
+        t.daemon = True
+        t.start()
+    overlapped = False
+    try:
+        plan = [(int(w) % n, int(k)) for w, k in schedule] + [(i, -1) for i in range(n)]
+        for i, steps in plan:
+            while steps != 0 and not baton.done[i]:
+                if not baton.started[i] and any(baton.started[j] and not baton.done[j] for j in range(n) if j != i):
+                    overlapped = True
+                if not baton.advance(i):
+                    break
+                steps -= 1
+    finally:
+        stuck = baton.free
+        baton.release_all()
+        for t in threads:
+            t.join(timeout)
+        stuck = stuck or any(t.is_alive() for t in threads)
+    if stuck:
+        raise HarnessError("overlap scheduler: a worker did not reach its next yield point within %ss" % timeout)
+    return results, errors, overlapped
+
+
+class _Lines(list):
+    """content whose every read of a line is a yield point (the cleaner indexes; iteration is covered too)"""
+
+    def __init__(self, items, pause, trace, who):
+        list.__init__(self, items)
+        self._pause, self._trace, self._who = pause, trace, who
+
+    def _read(self, idx):
+        self._pause()
+        self._trace.append("%s%d" % (self._who, idx if idx >= 0 else len(self) + idx))
+        return list.__getitem__(self, idx)
+
+    def __getitem__(self, idx):
+        if isinstance(idx, slice):
+            return list.__getitem__(self, idx)
+        return self._read(idx)
+
+    def __iter__(self):
+        for i in range(len(self)):
+            yield self._read(i)
+
+    def __reversed__(self):
+        for i in range(len(self) - 1, -1, -1):
+            yield self._read(i)
+
+
+def _yield_before_every_parser(cleaner, pause):
+    """finer yield points: before a parser (pattern, allow-list filter, each obfuscator) of this one cleaner
+    object is applied to a line.  Instance attributes on the harness's own object; nothing global is touched."""
+    for group in (getattr(cleaner, "redact", None), getattr(cleaner, "obfuscate", None)):
+        for p in (group or {}).values() if isinstance(group, dict) else []:
+            orig = getattr(p, "parse_line", None)
+            if p is None or orig is None:
+                continue
+
+            def parse_line(line, _orig=orig, **kw):
+                pause()
+                return _orig(line, **kw)
+            p.parse_line = parse_line
+
+
+def _call_kwargs(call):
+    return dict(no_obfuscate=list(call.get("no_obfuscate") or []), no_redact=bool(call.get("no_redact")))
+
+
+def _one_cleaning(cleaner, call, lines, pause=None, trace=None, who=""):
+    """one cleaning of a spec's content as its caller does it ("list": one call; "str": line by line)"""
+    allow = call.get("allowlist")
+    kw = _call_kwargs(call)
+    if call["entry"] == "str":
+        out = []
+        for n, l in enumerate(lines):
+            if pause:
+                pause()
+                trace.append("%s%d" % (who, n))
+            r = cleaner.clean_content(l, allowlist=dict(allow) if allow is not None else None, **kw)
+            if r is not None:
+                out.append(r)
+        return out
+    src = _Lines(lines, pause, trace, who) if pause else list(lines)
+    out = cleaner.clean_content(src, allowlist=dict(allow) if allow is not None else None, **kw)
+    if not isinstance(out, list):
+        raise Violation("clean_content(list) did not return a list", got=repr(out)[:200])
+    return list(out)
+
+
+def _survivors(out):
+    return [tg.tags_of(o) if o != "" else "blank" for o in out]
+
+
+def check_overlap(case):
+    calls = case["calls"]
+    contents = [tg.render(c["lines"]) for c in calls]
+    obf_on = bool(case["obf"]["obfuscate"])
+    # what a fresh cleaner gives for each content and configuration
+    fresh = [_one_cleaning(c08.build_cleaner(case), c, contents[i]) for i, c in enumerate(calls)]
+    shared = c08.build_cleaner(case)
+    trace = []
+    names = "ABCDEFGH"
+
+    baton = _Baton(len(calls))
+
+    def body(i):
+        return _one_cleaning(shared, calls[i], contents[i], pause=lambda: baton.pause(i), trace=trace, who=names[i])
+
+    # with obfuscation on, callers never overlap cleanings (insights.collect falls back to serial collection):
+    # the schedule degenerates to "one after the other" in the order of first appearance
+    schedule = case["schedule"] if not obf_on else [[w, -1] for w, _ in case["schedule"]]
+    fine = bool(case.get("fine")) and not obf_on
+    if fine:
+        _yield_before_every_parser(shared, baton.pause)
+    got, errors, overlapped = run_scheduled(baton, [body] * len(calls), schedule)
+    for e in errors:
+        if e is not None:
+            raise e[1].with_traceback(e[2])
+    details = dict(fqdn=case["fqdn"], obf=case["obf"], keywords=case.get("keywords"), patterns=case.get("patterns"),
+                   line_reads_in_time_order=" ".join(trace), overlapped=overlapped)
+    for i, c in enumerate(calls):
+        a, b = (got[i], fresh[i]) if not obf_on else (_survivors(got[i]), _survivors(fresh[i]))
+        if a != b:
+            raise Violation("cleaning %s of %d cleanings that went through one Cleaner object (%s) does not give %s a "
+                            "fresh cleaner gives for the same content and configuration: the output is not a function "
+                            "of the cleaning's own content and configuration"
+                            % (names[i], len(calls), "overlapping, see line_reads_in_time_order" if overlapped else
+                               "one after the other", "the output" if not obf_on else "the surviving lines"),
+                            cleaning=names[i], input=contents[i], allowlist=c.get("allowlist"),
+                            no_obfuscate=c.get("no_obfuscate"), no_redact=c.get("no_redact"), entry=c["entry"],
+                            output=got[i], fresh_cleaner_output=fresh[i],
+                            others=[dict(cleaning=names[j], input=contents[j], allowlist=o.get("allowlist"),
+                                         no_obfuscate=o.get("no_obfuscate"), no_redact=o.get("no_redact"))
+                                    for j, o in enumerate(calls) if j != i], **details)
+    n_allow = sum(1 for c in calls if c.get("allowlist") is not None)
+    differ = len(set(jdump([c.get("allowlist"), c.get("no_obfuscate"), bool(c.get("no_redact"))]) for c in calls)) > 1
+    dropped = any(len(fresh[i]) < len(contents[i]) for i in range(len(calls)))
+    labels = ["obfuscate=" + ("on" if obf_on else "off"), "overlapped" if overlapped else "one-after-the-other",
+              "cleanings=%d" % len(calls), "allowlists=%d" % n_allow]
+    if fine:
+        labels.append("yield-before-every-parser")
+    if differ:
+        labels.append("per-call-configuration-differs")
+    if dropped:
+        labels.append("lines-dropped")
+    if any(c["entry"] == "str" for c in calls):
+        labels.append("line-by-line-call")
+    # non-trivial: the cleanings differ in what is handed over per call and some line is dropped; when
+    # obfuscation is off they also really overlapped
+    nt = differ and dropped and (overlapped or obf_on)
+    return {"nontrivial": nt, "labels": labels,
+            "key": {"c": [[contents[i], c.get("allowlist"), c.get("no_obfuscate"), c.get("no_redact"), c["entry"]]
+                          for i, c in enumerate(calls)], "s": schedule, "kw": case.get("keywords"),
+                    "pat": case.get("patterns"), "obf": case["obf"], "fine": fine}}
 
 
 # ---- generator -------------------------------------------------------------------------------------------
@@ -446,13 +749,13 @@ def _compete_item(draw, w, kws):
 
 
 @st.composite
-def _compete_lines(draw, w, kws, blanks, max_lines):
-    n = draw(st.integers(1, max_lines))
+def _compete_lines(draw, w, kws, blanks, max_lines, min_lines=1, blank_one_in=4):
+    n = draw(st.integers(min_lines, max_lines))
     lines = []
     labels = set()
     start = draw(st.sampled_from([0, 1, 9, 98]))
     for i in range(n):
-        if blanks and draw(tg.rarely(4)):
+        if blanks and draw(tg.rarely(blank_one_in)):
             lines.append({"tag": None, "tagpos": "start", "parts": []})
             continue
         parts = []
@@ -471,6 +774,38 @@ def _compete_lines(draw, w, kws, blanks, max_lines):
 
 
 @st.composite
+def _allowlist(draw, rendered):
+    """an allow-list (filter -> how many lines it may keep) derived from the content: keys that match every tagged
+    line, one line, whatever shares a slice / a word, or nothing; budgets mostly smaller than the number of lines,
+    so that the list runs out somewhere inside the content (the cleaner walks it bottom-up), exactly at the top,
+    or never.  Keys are inserted in sorted order (a replay file stores objects with sorted keys; the first
+    matching key wins in the filter)."""
+    keys = set()
+    tags = [t for l in rendered for t in tg.tags_of(l)]
+    for _ in range(draw(st.sampled_from([1, 1, 1, 2, 2, 3]))):
+        how = draw(st.sampled_from(["every", "every", "tag", "tag", "slice", "slice", "word", "never"]))
+        if how == "tag" and tags:
+            keys.add(tg.tag(draw(st.sampled_from(tags))))
+        elif how == "slice":
+            l = draw(st.sampled_from(rendered))
+            i = draw(st.integers(0, max(len(l) - 1, 0)))
+            keys.add(l[i:i + draw(st.sampled_from([1, 2, 3, 5]))] or "#")
+        elif how == "word":
+            keys.add(draw(st.sampled_from(tg.FILLER_WORDS[:5])))
+        elif how == "never":
+            keys.add("zzqx")
+        else:
+            keys.add("#")
+    allow = {}
+    for k in sorted(keys):
+        # budgets around the number of lines the key is found in: fewer (used up inside the content), as many
+        # (used up by the topmost match), more / the default maximum (never used up)
+        m = sum(1 for l in rendered if k in l)
+        allow[k] = draw(st.sampled_from([1, 1, max(1, m - 1), max(1, m - 1), max(1, m), m + 1, 10000]))
+    return allow
+
+
+@st.composite
 def _compete_case(draw, tier, for_order=False):
     w = draw(tg.world(max_keywords=0))
     cands = _keyword_candidates(w)
@@ -480,7 +815,13 @@ def _compete_case(draw, tier, for_order=False):
     compete = sorted(set(why for why, _ in chosen))
     entry = draw(st.sampled_from(["list", "list", "list", "write", "str", "file"]))
     blanks = entry in ("list", "write") and (for_order or draw(tg.rarely(5)))
-    lines, labs = draw(_compete_lines(w, kws, blanks, 5 if tier == "quick" else 8))
+    want_allow = entry != "write" and (draw(tg.die(5)) < 2 if for_order else draw(tg.rarely(8)))
+    if want_allow and for_order:
+        # filtered specs: at least two lines and more blank ones, so that the allow-list can run out with
+        # something - blank or not - still above
+        lines, labs = draw(_compete_lines(w, kws, blanks, 6 if tier == "quick" else 9, min_lines=2, blank_one_in=3))
+    else:
+        lines, labs = draw(_compete_lines(w, kws, blanks, 5 if tier == "quick" else 8))
     rendered = tg.render(lines)
     obf = dict(ALL_ON)
     if draw(tg.rarely(4)):
@@ -505,9 +846,8 @@ def _compete_case(draw, tier, for_order=False):
                 items.append(l[i:i + draw(st.sampled_from([2, 3, 4, 6]))] or "#")
         patterns = {"mode": "plain", "items": items}
     allow = None
-    if entry != "write" and draw(tg.rarely(8)):
-        keys = draw(st.lists(st.sampled_from(["#"] + tg.FILLER_WORDS[:5]), min_size=1, max_size=2, unique=True))
-        allow = dict((k, draw(st.sampled_from([1, 2, 10000]))) for k in keys)
+    if want_allow:
+        allow = draw(_allowlist(rendered))
     no_red = draw(tg.rarely(8))
     if for_order and draw(tg.rarely(6)):
         # a spec exempt from every cleaning step (machine-id like): nothing rewrites it, but a spec left
@@ -535,6 +875,18 @@ def _width_case(draw, tier):
     """netstat-shaped lines cleaned in width-preserving mode (the netstat_-neopa spec): two addresses per
     line, often of equal textual length, so the order in which substitutes are issued matters"""
     w = draw(tg.world())
+    if draw(st.integers(0, 2)):
+        # addresses of equal textual length by construction (one octet replaced by another one with as many
+        # digits): among those only the order of discovery decides which substitute an address gets
+        ips = list(w["ips"])
+        for ip in ips[:draw(st.integers(1, 2))]:
+            o = ip.split(".")
+            i = draw(st.integers(1, 3))
+            lo, hi = {1: (0, 9), 2: (10, 99), 3: (100, 255)}[len(o[i])]
+            o[i] = str(draw(st.integers(lo, hi)))
+            if ".".join(o) not in ips:
+                ips.append(".".join(o))
+        w = dict(w, ips=ips)
     lines = draw(tg.content(w, max_lines=4, netstat=True))
     return {"fqdn": w["fqdn"], "obf": dict(ALL_ON), "keywords": w["keywords"], "patterns": None,
             "no_obfuscate": [], "no_redact": False, "allowlist": None,
@@ -609,6 +961,56 @@ def strat_order(tier):
     return _compete_case(tier, for_order=True)
 
 
+@st.composite
+def _overlap_case(draw, tier):
+    """one cleaner configuration, 2-3 cleanings that differ in what is handed over per call, a schedule"""
+    w = draw(tg.world(max_keywords=0))
+    cands = _keyword_candidates(w)
+    kws = [k for _, k in draw(st.lists(st.sampled_from(cands), min_size=0, max_size=2, unique_by=lambda x: x[1]))]
+    if draw(tg.rarely(4)):
+        obf = dict(ALL_ON)
+    else:   # the configuration in which a collection may clean from several threads
+        obf = {"obfuscate": False, "hostname": draw(st.booleans()), "mac": draw(st.booleans()), "ipv6": False}
+    calls, everything = [], []
+    for _ in range(draw(st.sampled_from([2, 2, 2, 3]))):
+        lines, _labs = draw(_compete_lines(w, kws, True, 5 if tier == "quick" else 8))
+        rendered = tg.render(lines)
+        everything += rendered
+        allow = draw(_allowlist(rendered)) if draw(tg.die(3)) else None
+        no_obf = []
+        if draw(tg.rarely(3)):
+            no_obf = draw(st.sampled_from([["password"], ["keyword"], ["keyword", "password"], ["hostname", "ip"],
+                                           ["hostname", "ip", "ipv6", "mac"], list(c08.OBF_NAMES)]))
+        calls.append({"lines": lines, "allowlist": allow, "no_obfuscate": no_obf, "no_redact": draw(tg.rarely(4)),
+                      "entry": "str" if draw(tg.rarely(8)) else "list"})
+    patterns = None
+    if draw(st.booleans()):
+        items = []
+        for _ in range(draw(st.integers(1, 2))):
+            l = draw(st.sampled_from(everything))
+            i = draw(st.integers(0, max(len(l) - 1, 0)))
+            items.append(l[i:i + draw(st.sampled_from([2, 3, 4, 6]))] or "zzqx")
+        patterns = {"mode": "plain", "items": items}
+    n = len(calls)
+    if draw(tg.rarely(4)):
+        # a serial history: one cleaning after the other, in a generated order
+        schedule = [[i, -1] for i in draw(st.permutations(list(range(n))))]
+    else:
+        # turns of 1-5 yield points, never two consecutive turns for the same cleaning; what is left when the
+        # schedule ends is run one cleaning after the other
+        cur = draw(st.integers(0, n - 1))
+        schedule = []
+        for steps in draw(st.lists(st.sampled_from([1, 1, 1, 2, 2, 3, 5]), min_size=2, max_size=10)):
+            schedule.append([cur, steps])
+            cur = (cur + draw(st.integers(1, n - 1))) % n
+    return {"fqdn": w["fqdn"], "obf": obf, "keywords": kws, "patterns": patterns, "calls": calls,
+            "schedule": schedule, "fine": draw(st.booleans())}
+
+
+def strat_overlap(tier):
+    return _overlap_case(tier)
+
+
 def selftest():
     tg.selftest()
     assert hashseed.seeds_for(1, 8)[:3] == [0, 1, 2] and len(set(hashseed.seeds_for(7, 64))) == 64
@@ -616,6 +1018,31 @@ def selftest():
     assert not _is_subsequence([("tag", 2), ("tag", 1)], [("tag", 1), ("tag", 2)])
     assert not _is_subsequence([("blank",), ("blank",)], [("blank",), ("tag", 1)])
     assert _ok_keyword("2.3") and not _ok_keyword("23") and not _ok_keyword("a#") and not _ok_keyword(" a")
+    # the overlap scheduler realises exactly the generated interleaving (no code under test involved)
+    log = []
+
+    def _worker(name, n):
+        def f(i):
+            for k in range(n):
+                baton.pause(i)
+                log.append("%s%d" % (name, k))
+            return name
+        return f
+    baton = _Baton(2, timeout=20.0)
+    res, errs, over = run_scheduled(baton, [_worker("a", 3), _worker("b", 2)], [[0, 2], [1, 1], [0, 1], [3, 1]])
+    # a step runs a worker up to its next pause: a worker's first step only reaches its pause #0
+    assert log == ["a0", "a1", "b0", "a2", "b1"] and res == ["a", "b"] and errs == [None, None] and over, (log, res, over)
+    del log[:]
+    baton = _Baton(2, timeout=20.0)
+    res, errs, over = run_scheduled(baton, [_worker("a", 2), _worker("b", 2)], [[1, -1]])
+    assert log == ["b0", "b1", "a0", "a1"] and not over, (log, over)
+    got = []
+    ln = _Lines(["x", "y", "z"], lambda: got.append("p"), got, "L")
+    assert [ln[2], ln[-3]] == ["z", "x"] and list(reversed(ln)) == ["z", "y", "x"] and list(ln) == ["x", "y", "z"]
+    assert got[:4] == ["p", "L2", "p", "L0"] and len(got) == 16 and ln[0:2] == ["x", "y"] and isinstance(ln, list)
+    assert _allow_used_up_at({"allowlist": {"#": 1}}, ["", "#1# a", "#2# b"]) == 2
+    assert _allow_used_up_at({"allowlist": {"#": 2}}, ["#1# a", "", "#2# b"]) == 0
+    assert _allow_used_up_at({"allowlist": {"#": 3}}, ["#1# a", "#2# b"]) is None
     # the child protocol itself (no code under test involved)
     res = hashseed.run_batch("vp.props.c10:_echo", [{"x": 1}, {"x": u"\u00e9"}], [0, 5])
     assert res[0] == res[5] == [{"x": 1, "echo": True}, {"x": u"\u00e9", "echo": True}], res
@@ -635,7 +1062,9 @@ SUBS = [
     Sub("big", check_big, enumerate=big_cases, workers_quick=4, workers_thorough=8, budget_quick=60, budget_thorough=300),
     Sub("hashseed", check_hashseed, custom=hashseed_search, workers_quick=2, workers_thorough=16,
         budget_quick=50, budget_thorough=560),
-    Sub("order", check_order, strategy=strat_order, quick=1200, thorough=12000, workers_quick=3,
+    Sub("order", check_order, strategy=strat_order, quick=900, thorough=12000, workers_quick=3,
+        workers_thorough=16, budget_quick=30, budget_thorough=400),
+    Sub("overlap", check_overlap, strategy=strat_overlap, quick=240, thorough=6000, workers_quick=3,
         workers_thorough=16, budget_quick=30, budget_thorough=400),
 ]
 
